@@ -33,10 +33,17 @@ class _Dead(object):
   pass
 
 
+def _exc(case, msg):
+  """the injected failure: an ordinary exception, or one that is not an Exception (a SIGINT during output, the
+  framework's own ThreadTerminationError is a SystemExit)"""
+  return {'KeyboardInterrupt': KeyboardInterrupt, 'SystemExit': SystemExit}.get(case.get('exc'), RuntimeError)(msg)
+
+
 class Fs(object):
   """logs file-system operations of the module under test; can drop everything after the j-th one"""
 
-  def __init__(self, scratch, crash, write_fault, close_fault):
+  def __init__(self, scratch, crash, write_fault, close_fault, exc=None):
+    self.exc = exc
     self.scratch = scratch
     self.crash = crash
     self.n = 0
@@ -78,7 +85,7 @@ class TempWrapper(object):
     k = self.fs.writes
     self.fs.writes += 1
     if self.fs.write_fault is not None and k == self.fs.write_fault:
-      raise IOError('injected write failure')
+      raise {'KeyboardInterrupt': KeyboardInterrupt, 'SystemExit': SystemExit}.get(self.fs.exc, IOError)('injected write failure')
     raw = data.encode() if isinstance(data, str) else data
     if self.fs.op('app:' + (raw.hex() or '-')) and self.f is not None:
       self.buf.append(data)
@@ -169,7 +176,7 @@ def run_real(case):
   scratch = tempfile.mkdtemp(prefix='verif-c17-')
   try:
     fault = case['fault']
-    fs = Fs(scratch, case.get('crash'), fault[1] if fault[0] == 'write' else None, fault[0] == 'close')
+    fs = Fs(scratch, case.get('crash'), fault[1] if fault[0] == 'write' else None, fault[0] == 'close', case.get('exc'))
     chunks = [bytes.fromhex(c) for c in case['chunks']]
     rec = _record()
     pattern = os.path.join(scratch, '{dut_id}.{metadata[test_name]}.out')
@@ -185,10 +192,10 @@ def run_real(case):
           def gen():
             for i, c in enumerate(chunks):
               if fault[0] == 'ser' and i == fault[1]:
-                raise RuntimeError('injected serializer failure')
+                raise _exc(case, 'injected serializer failure')
               yield c.decode('latin-1') if (i % 2 and all(b < 128 for b in c)) else c
             if fault[0] == 'ser' and fault[1] >= len(chunks):
-              raise RuntimeError('injected serializer failure')
+              raise _exc(case, 'injected serializer failure')
           return gen()
       saved = (callbacks.tempfile, callbacks.shutil, getattr(callbacks, 'os', None))
       callbacks.tempfile, callbacks.shutil, callbacks.os = tf, sh, osm
@@ -196,7 +203,7 @@ def run_real(case):
         cb = Out(pattern if case.get('pattern', 'str') == 'str' else (lambda **kw: dest))
         try:
           cb(rec)
-        except Exception:  # pylint: disable=broad-except
+        except BaseException:  # pylint: disable=broad-except
           pass
       finally:
         callbacks.tempfile, callbacks.shutil = saved[0], saved[1]
@@ -224,11 +231,11 @@ def run_real(case):
           with aw.atomic_write(dest, filesync=bool(case.get('filesync'))) as f:
             for i, c in enumerate(chunks):
               if fault[0] == 'ser' and i == fault[1]:
-                raise RuntimeError('injected body failure')
+                raise _exc(case, 'injected body failure')
               f.write(c.decode('latin-1'))
             if fault[0] == 'ser' and fault[1] >= len(chunks):
-              raise RuntimeError('injected body failure')
-        except Exception:  # pylint: disable=broad-except
+              raise _exc(case, 'injected body failure')
+        except BaseException:  # pylint: disable=broad-except
           pass
       finally:
         aw.tempfile, aw.os = saved[0], saved[1]
@@ -287,8 +294,9 @@ def gen_cases(rng, tier):
         for fault in faults:
           if prog == 'A' and fault[0] == 'close':
             continue
-          cases.append({'prog': prog, 'chunks': chunks, 'old': old, 'fault': list(fault), 'crash': None,
-                        'pattern': ['str', 'callable'][len(cases) % 2], 'filesync': len(cases) % 3 == 0})
+          for exc in ((None, 'KeyboardInterrupt', 'SystemExit') if fault[0] in ('ser', 'write') else (None,)):
+            cases.append({'prog': prog, 'chunks': chunks, 'old': old, 'fault': list(fault), 'crash': None, 'exc': exc,
+                          'pattern': ['str', 'callable'][len(cases) % 2], 'filesync': len(cases) % 3 == 0})
         for j in range(0, n + 6):
           cases.append({'prog': prog, 'chunks': chunks, 'old': old, 'fault': ['none', 0], 'crash': j, 'filesync': j % 2 == 1})
         for j in range(0, n + 4):
@@ -304,6 +312,7 @@ def gen_cases(rng, tier):
     if fault[0] == 'write' and n == 0:
       fault = ['none', 0]
     cases.append({'prog': prog, 'chunks': chunks, 'old': r.choice([None, '6f6c64']), 'fault': fault,
+                  'exc': r.choice([None, None, 'KeyboardInterrupt', 'SystemExit']),
                   'crash': r.choice([None, None, r.randint(0, n + 5)]), 'filesync': r.random() < 0.4})
   return cases
 
